@@ -21,8 +21,18 @@ Definition grad_product (t : tmat) (L q eps : R) (xs : list (list R)) (cs : list
   transform t (gauto (dprod_m L q eps) (length (transform t z)) (map (fun x => transform t (vsubR z x)) xs) cs).
 Definition grad_lpq (t : tmat) (L p q eps : R) (xs : list (list R)) (cs : list R) (z : list R) : list R :=
   transform t (gauto (dlpq_m L p q eps) (length (transform t z)) (map (fun x => transform t (vsubR z x)) xs) cs).
-Definition grad_sum_power (t : tmat) (L q c : R) (power : nat) (xs : list (list R)) (cs : list R) (z : list R) : list R :=
-  transform t (gauto (dsp L q c power) (length (transform t z)) (map (fun x => transform t (vsubR z x)) xs) cs).
+(* sum-power kernel: the code masks every COORDINATE a of the transformed difference on |a| (before the power is taken): a masked coordinate
+   enters the sum as the constant exp 0 = 1 and has derivative 0 *)
+Definition spcoord_m (L q eps : R) (v : R) : R := exp (- masked eps (Rabs v) (pw (Rabs v) q) / Rpower L q).
+Definition dspcoord_m (L q eps : R) (a : R) : R := masked eps (Rabs a) (dspcoord L q a).
+Definition dsp_m (L q c eps : R) (power : nat) (u w : list R) : R :=
+  INR power * ((1 - c) * (rsumR (map (spcoord_m L q eps) u) / INR (length u)) + c) ^ (pred power)
+    * ((1 - c) / INR (length u)) * wsum (dspcoord_m L q eps) u w.
+Definition grad_sum_power (t : tmat) (L q c eps : R) (power : nat) (xs : list (list R)) (cs : list R) (z : list R) : list R :=
+  transform t (gauto (dsp_m L q c eps power) (length (transform t z)) (map (fun x => transform t (vsubR z x)) xs) cs).
+(* "the mask of coordinate a is open, or a = 0" (|0|^q = 0 and d|a|^q at 0 is modelled as 0: the mask changes nothing there) *)
+Definition sp_mask_ok (eps : R) (u : list R) : Prop := List.Forall (fun a => a = 0 \/ eps <= Rabs a) u.
+Definition sp_mask_open (eps : R) (u : list R) : Prop := List.Forall (fun a => eps <= Rabs a) u.
 
 (* ---------- G6/G5: the mask ---------- *)
 Lemma masked_open eps D v : eps <= D -> masked eps D v = v.
@@ -108,6 +118,14 @@ Proof.
     (fun u => INR power * ((1 - c) * (rsumR (map (fun v => exp (- pw (Rabs v) q / Rpower L q)) u) / INR (length u)) + c) ^ (pred power)
               * ((1 - c) / INR (length u)))
     (fun a => exp (- pw (Rabs a) q / Rpower L q) * (- / Rpower L q) * dabs_pow q a)).
+  intros w. reflexivity.
+Qed.
+
+Lemma dsp_m_dir_linear L q c eps power m u : dir_linear (dsp_m L q c eps power) m u.
+Proof.
+  apply (dir_linear_scaled_wsum _
+    (fun u => INR power * ((1 - c) * (rsumR (map (spcoord_m L q eps) u) / INR (length u)) + c) ^ (pred power) * ((1 - c) / INR (length u)))
+    (dspcoord_m L q eps)).
   intros w. reflexivity.
 Qed.
 
@@ -241,11 +259,91 @@ Proof.
   apply masked_open. apply Hm. exact Hx.
 Qed.
 
-Theorem grad_sum_power_coordinate t L q c power xs cs z d w :
+(* the sum-power masks: the model closure term of GradOps is the `masked` form used here *)
+Lemma sp_term_as_masked eps q v : sp_term eps q v = masked eps (Rabs v) (pw (Rabs v) q).
+Proof. rewrite sp_term_eq. reflexivity. Qed.
+
+Lemma spcoord_m_ok L q eps a : a = 0 \/ eps <= Rabs a -> spcoord_m L q eps a = spcoord L q a.
+Proof. intros H. unfold spcoord_m, spcoord. rewrite <- sp_term_as_masked, (sp_term_ok eps q a H). reflexivity. Qed.
+Lemma dspcoord_m_ok L q eps a : a = 0 \/ eps <= Rabs a -> dspcoord_m L q eps a = dspcoord L q a.
+Proof.
+  intros [->|H]; unfold dspcoord_m; [|apply masked_open; exact H].
+  unfold masked. destruct (Rle_dec eps (Rabs 0)); [reflexivity|]. unfold dspcoord. rewrite dabs_pow_0. ring.
+Qed.
+Lemma dspcoord_m_closed L q eps a : Rabs a < eps -> dspcoord_m L q eps a = 0.
+Proof. intros H. apply masked_closed. exact H. Qed.
+Lemma spcoord_m_closed L q eps a : Rabs a < eps -> spcoord_m L q eps a = 1.
+Proof. intros H. unfold spcoord_m. rewrite masked_closed by exact H. unfold Rdiv. rewrite Ropp_0, Rmult_0_l. apply exp_0. Qed.
+
+Lemma wsum_ext_forall (g h : R -> R) : forall u w, List.Forall (fun a => g a = h a) u -> wsum g u w = wsum h u w.
+Proof.
+  induction u as [|a u IH]; intros [|b w] H; cbn [wsum]; try reflexivity.
+  inversion H as [|a' u' Ha Hu]; subst. rewrite Ha, (IH w Hu). reflexivity.
+Qed.
+
+Theorem dsp_m_ok L q c eps power u w : sp_mask_ok eps u -> dsp_m L q c eps power u w = dsp L q c power u w.
+Proof.
+  intros H. unfold dsp_m, dsp. fold (spcoord L q). fold (dspcoord L q).
+  rewrite (map_ext_in (spcoord_m L q eps) (spcoord L q)) by (intros a Ha; apply spcoord_m_ok; unfold sp_mask_ok in H; rewrite Forall_forall in H; apply H; exact Ha).
+  rewrite (wsum_ext_forall (dspcoord_m L q eps) (dspcoord L q)); [reflexivity|].
+  apply (Forall_impl _ (fun a Ha => dspcoord_m_ok L q eps a Ha) H).
+Qed.
+
+Lemma sp_mask_open_ok eps u : sp_mask_open eps u -> sp_mask_ok eps u.
+Proof. intros H. apply (Forall_impl _ (fun a Ha => or_intror Ha) H). Qed.
+
+(* with the masks left in place (no hypothesis on the masks) *)
+Theorem grad_sum_power_coordinate_masked t L q c eps power xs cs z d w :
+  sym_at t d w (length (transform t z)) -> length w = length (transform t z) ->
+  nth d (grad_sum_power t L q c eps power xs cs z) 0 = dlincomb (fun u => dsp_m L q c eps power u w) (map (fun x => transform t (vsubR z x)) xs) cs.
+Proof. intros Hs Hl. apply (grad_coordinate_generic (dsp_m L q c eps power)); [exact Hs|exact Hl|]. intros u. apply dsp_m_dir_linear. Qed.
+
+(* every coordinate of every transformed difference has an open mask or vanishes *)
+Theorem grad_sum_power_coordinate t L q c eps power xs cs z d w :
   wf_tmat t (length z) -> List.Forall (fun x => length x = length z) xs ->
   sym_at t d w (length (transform t z)) -> length w = length (transform t z) ->
-  nth d (grad_sum_power t L q c power xs cs z) 0 = dlincomb (fun u => dsp L q c power u w) (map (fun x => transform t (vsubR z x)) xs) cs.
-Proof. intros _ _ Hs Hl. apply (grad_coordinate_generic (dsp L q c power)); [exact Hs|exact Hl|]. intros u. apply dsp_dir_linear. Qed.
+  List.Forall (fun x => sp_mask_ok eps (transform t (vsubR z x))) xs ->
+  nth d (grad_sum_power t L q c eps power xs cs z) 0 = dlincomb (fun u => dsp L q c power u w) (map (fun x => transform t (vsubR z x)) xs) cs.
+Proof.
+  intros _ _ Hs Hl Hm. rewrite (grad_sum_power_coordinate_masked t L q c eps power xs cs z d w) by assumption. apply dlincomb_ext.
+  intros u Hu. apply in_map_iff in Hu. destruct Hu as [x [<- Hx]]. rewrite Forall_forall in Hm.
+  apply dsp_m_ok. apply Hm. exact Hx.
+Qed.
+
+(* the property the mask restores: a coordinate e whose mask is closed for every centre (|u_e| < eps, in particular u_e = 0: a centre and the
+   query coincide in that coordinate) contributes 0 — a finite number — to the model gradient, for EVERY exponent q (also q < 1, where
+   d|a|^q/da is unbounded near 0); no hypothesis on q, L, c, power is needed *)
+Lemma wsum_masked_head (g : R -> R) a u b w : g a = 0 -> wsum g (a :: u) (b :: w) = wsum g u w.
+Proof. intros H. cbn [wsum]. rewrite H. ring. Qed.
+
+Lemma wsum_basis_zero (g : R -> R) : forall u e m, g (nth e u 0) = 0 -> wsum g u (basis e m) = 0.
+Proof.
+  induction u as [|a u IH]; intros e m H; [reflexivity|]. destruct m as [|m]; [destruct e; reflexivity|].
+  destruct e as [|e]; cbn [basis wsum].
+  - cbn [nth] in H. rewrite H, wsum_zeros. ring.
+  - cbn [nth] in H. rewrite (IH e m H). ring.
+Qed.
+
+Lemma nth_map_seq (f : nat -> R) m e : (e < m)%nat -> nth e (map f (seq 0 m)) 0 = f e.
+Proof.
+  intros He. rewrite (nth_indep _ 0 (f 0%nat)) by (rewrite map_length, seq_length; exact He).
+  rewrite (map_nth f), seq_nth by exact He. reflexivity.
+Qed.
+
+Theorem sum_power_masked_coordinate_contributes_zero L q c eps power m us cs e :
+  List.Forall (fun u => Rabs (nth e u 0) < eps) us ->
+  nth e (gauto (dsp_m L q c eps power) m us cs) 0 = 0.
+Proof.
+  intros H. unfold gauto. destruct (Nat.lt_ge_cases e m) as [He|He].
+  - rewrite (nth_map_seq (fun e0 => dlincomb (fun u => dsp_m L q c eps power u (basis e0 m)) us cs) m e He).
+    revert cs. induction H as [|u us Hu Hus IH]; intros cs; [reflexivity|]. destruct cs as [|c0 cs]; [reflexivity|]. cbn [dlincomb].
+    rewrite IH. unfold dsp_m at 1. rewrite (wsum_basis_zero (dspcoord_m L q eps) u e m) by (apply dspcoord_m_closed; exact Hu). ring.
+  - apply nth_overflow. rewrite map_length, seq_length. exact He.
+Qed.
+
+(* one summand: the masked coordinate's own term of the directional value does not depend on q at all *)
+Corollary sum_power_masked_coordinate_term_zero L q eps a b : Rabs a < eps -> dspcoord_m L q eps a * b = 0.
+Proof. intros H. rewrite dspcoord_m_closed by exact H. ring. Qed.
 
 (* ---------- G4: each coordinate the code returns is the derivative of the documented predictor ---------- *)
 Lemma dir_length t z e : wf_tmat t (length z) -> length e = length z -> length (transform t e) = length (transform t z).
@@ -275,15 +373,17 @@ Proof.
   - apply dir_length; assumption.
 Qed.
 
-Theorem grad_sum_power_is_derivative t L q c power xs cs z d e :
+Theorem grad_sum_power_is_derivative t L q c eps power xs cs z d e :
   wf_tmat t (length z) -> length e = length z -> List.Forall (fun x => length x = length z) xs ->
   sym_at t d (transform t e) (length (transform t z)) ->
+  List.Forall (fun x => sp_mask_open eps (transform t (vsubR z x))) xs ->
   List.Forall (fun x => nz (transform t (vsubR z x))) xs ->
-  is_derive (fun s => fpred (closed_sum_power t L q c power) xs cs (vaxpy s e z)) 0 (nth d (grad_sum_power t L q c power xs cs z) 0).
+  is_derive (fun s => fpred (closed_sum_power t L q c power) xs cs (vaxpy s e z)) 0 (nth d (grad_sum_power t L q c eps power xs cs z) 0).
 Proof.
-  intros Hw He Hx Hs Hnz. rewrite (grad_sum_power_coordinate t L q c power xs cs z d (transform t e)); try assumption.
+  intros Hw He Hx Hs Hm Hnz. rewrite (grad_sum_power_coordinate t L q c eps power xs cs z d (transform t e)); try assumption.
   - apply sum_power_gradient_is_derivative_nz; assumption.
   - apply dir_length; assumption.
+  - apply (Forall_impl _ (fun x H => sp_mask_open_ok eps _ H) Hm).
 Qed.
 
 (* ---------- instances: coordinate directions, no transform and diagonal transform ---------- *)
@@ -314,13 +414,14 @@ Proof.
   intros Hx Hm Hnz. apply (grad_lpq_is_derivative TNone); [exact I|apply basis_length|exact Hx|apply (sym_at_none d (length z))|exact Hm|exact Hnz].
 Qed.
 
-Corollary grad_sum_power_is_derivative_none L q c power xs cs z d :
+Corollary grad_sum_power_is_derivative_none L q c eps power xs cs z d :
   List.Forall (fun x => length x = length z) xs ->
+  List.Forall (fun x => sp_mask_open eps (vsubR z x)) xs ->
   List.Forall (fun x => nz (vsubR z x)) xs ->
   is_derive (fun s => fpred (closed_sum_power TNone L q c power) xs cs (vaxpy s (basis d (length z)) z)) 0
-            (nth d (grad_sum_power TNone L q c power xs cs z) 0).
+            (nth d (grad_sum_power TNone L q c eps power xs cs z) 0).
 Proof.
-  intros Hx Hnz. apply (grad_sum_power_is_derivative TNone); [exact I|apply basis_length|exact Hx|apply (sym_at_none d (length z))|exact Hnz].
+  intros Hx Hm Hnz. apply (grad_sum_power_is_derivative TNone); [exact I|apply basis_length|exact Hx|apply (sym_at_none d (length z))|exact Hm|exact Hnz].
 Qed.
 
 Corollary grad_product_is_derivative_diag m L q eps xs cs z d : length m = length z ->
@@ -345,14 +446,15 @@ Proof.
   apply (grad_lpq_is_derivative (TDiag m)); [exact Hl|apply basis_length|exact Hx|apply sym_at_diag_z; exact Hl|exact Hm|exact Hnz].
 Qed.
 
-Corollary grad_sum_power_is_derivative_diag m L q c power xs cs z d : length m = length z ->
+Corollary grad_sum_power_is_derivative_diag m L q c eps power xs cs z d : length m = length z ->
   List.Forall (fun x => length x = length z) xs ->
+  List.Forall (fun x => sp_mask_open eps (vmulR (vsubR z x) m)) xs ->
   List.Forall (fun x => nz (vmulR (vsubR z x) m)) xs ->
   is_derive (fun s => fpred (closed_sum_power (TDiag m) L q c power) xs cs (vaxpy s (basis d (length z)) z)) 0
-            (nth d (grad_sum_power (TDiag m) L q c power xs cs z) 0).
+            (nth d (grad_sum_power (TDiag m) L q c eps power xs cs z) 0).
 Proof.
-  intros Hl Hx Hnz.
-  apply (grad_sum_power_is_derivative (TDiag m)); [exact Hl|apply basis_length|exact Hx|apply sym_at_diag_z; exact Hl|exact Hnz].
+  intros Hl Hx Hm Hnz.
+  apply (grad_sum_power_is_derivative (TDiag m)); [exact Hl|apply basis_length|exact Hx|apply sym_at_diag_z; exact Hl|exact Hm|exact Hnz].
 Qed.
 
 (* ---------- G6: evaluation helpers (sgn_pos, sgn_neg, sgn_0, dabs_pow_0 are in GradsP) ---------- *)
@@ -432,13 +534,27 @@ Proof.
     [reflexivity|exact ex_lengths|exact ex_masks_lpq|exact ex_nz].
 Qed.
 
+Lemma ex_masks_sum_power : List.Forall (fun x => sp_mask_open (1 / 100) (vmulR (vsubR exz x) [2; 3])) exxs.
+Proof.
+  unfold exxs, sp_mask_open. apply Forall_cons; [|apply Forall_cons; [|apply Forall_nil]].
+  - change (vmulR (vsubR exz [0; 0]) [2; 3]) with (transform exD (vsubR exz [0; 0])). rewrite ex_u1.
+    repeat constructor; rewrite Rabs_right; lra.
+  - change (vmulR (vsubR exz [3; 5]) [2; 3]) with (transform exD (vsubR exz [3; 5])). rewrite ex_u2.
+    repeat constructor; rewrite Rabs_left; lra.
+Qed.
+
 Example ex_grad_sum_power_is_derivative d :
   is_derive (fun s => fpred (closed_sum_power exD 2 (1 / 2) (1 / 4) 2) exxs excs (vaxpy s (basis d 2) exz)) 0
-            (nth d (grad_sum_power exD 2 (1 / 2) (1 / 4) 2 exxs excs exz) 0).
+            (nth d (grad_sum_power exD 2 (1 / 2) (1 / 4) (1 / 100) 2 exxs excs exz) 0).
 Proof.
-  apply (grad_sum_power_is_derivative_diag [2; 3] 2 (1 / 2) (1 / 4) 2 exxs excs exz d);
-    [reflexivity|exact ex_lengths|exact ex_nz].
+  apply (grad_sum_power_is_derivative_diag [2; 3] 2 (1 / 2) (1 / 4) (1 / 100) 2 exxs excs exz d);
+    [reflexivity|exact ex_lengths|exact ex_masks_sum_power|exact ex_nz].
 Qed.
+
+(* the repaired case on an instance: q = 1/2 < 1, the query (1,2) and the centre (1,7) coincide in coordinate 0 *)
+Example ex_sum_power_masked_coordinate c power cs :
+  nth 0 (gauto (dsp_m 2 (1 / 2) c (1 / 100) power) 2 [[0; -5]] cs) 0 = 0.
+Proof. apply sum_power_masked_coordinate_contributes_zero. repeat constructor. cbn [nth]. rewrite Rabs_R0. lra. Qed.
 
 (* G6: coordinate 0 of the model evaluated to an explicit arithmetic expression (ready for `interval`) *)
 Example ex_grad_product_coord0 :
@@ -468,6 +584,8 @@ Proof. apply (gauto_product_coincident 2 (1 / 2) (1 / 100) 2 2). lra. Qed.
 Print Assumptions grad_product_is_derivative.
 Print Assumptions grad_lpq_is_derivative.
 Print Assumptions grad_sum_power_is_derivative.
+Print Assumptions sum_power_masked_coordinate_contributes_zero.
+Print Assumptions dsp_m_ok.
 Print Assumptions grad_product_coordinate.
 Print Assumptions gauto_dot.
 Print Assumptions wsum_basis_expand.
